@@ -26,23 +26,33 @@ RULE = ("per scenario a generated configuration of 3..25 <allow>/<deny> rules ov
         "mandatory / at_console=\"false\" contexts (several <policy> elements per context, users and groups by name or "
         "numeric id, file order shuffled; rules with only boolean "
         "or modifier attributes, '*' wildcards, flipped / generalised copies shadowing earlier rules, word-boundary "
-        "prefixes), 3..5 raw clients under 2..3 uids, a registry with a connection owning several names, queued "
-        "owners and names under prefixes, then 100..300 probes: method_call / method_return / error / signal, "
+        "prefixes; in most configurations also 1..2 THEMED PAIRS of send rules whose outcome depends on who is about "
+        "to receive the copy: <deny Q/> + <allow Q send_destination|send_destination_prefix=N/> and the mirrored "
+        "<allow Q/> + <deny Q send_destination...=N/>, Q = interface / member / path / type / send_broadcast=false / "
+        "nothing, N = a name that a broadcast listener, the eavesdropper or an addressee owns, the second rule in the "
+        "same or a later context; with an eavesdropper often a late <allow eavesdrop=\"true\"/>), 3..5 raw clients "
+        "under 2..3 uids (1..2 broadcast listeners with AddMatch type='signal', in a third of the scenarios an "
+        "eavesdropper with AddMatch eavesdrop='true'; listeners and the eavesdropper own names too, and then also get "
+        "calls and send replies), a registry with a connection owning several names, queued "
+        "owners and names under prefixes, then 100..300 probes (40..55 % of them aimed at the qualifier of a themed pair): method_call / method_return / error / signal, "
         "optional PATH / INTERFACE / MEMBER present or absent, unicast to well-known or unique names, broadcasts to "
         "AddMatch listeners, calls to the driver on non-org.freedesktop.DBus interfaces, requested / unrequested / "
         "second replies / replies to NO_REPLY calls, 0 or 1 fds, RequestName with all flags, new connections of "
         "other users; half of the configurations are installed on the same daemon by reload (SIGHUP + ReloadConfig "
         "round-trip) with the clients staying connected. Every probe is compared with vf/models/policy.py after "
         "sender barrier + recipient barriers (delivery at exactly the predicted clients, exactly one AccessDenied "
-        "for a denied call, unchanged owner queue after a denied RequestName). HARNESS TRAFFIC: the configuration "
+        "for a denied call, unchanged owner queue after a denied RequestName). The sender's send rules are evaluated "
+        "once PER PROSPECTIVE RECIPIENT with that connection's names (addressee, every broadcast recipient, every "
+        "eavesdropper): a broadcast reaches exactly the listeners the sender may send it to, and an eavesdropper gets "
+        "no copy of a message that the sender may not send to the eavesdropper. HARNESS TRAFFIC: the configuration "
         "ends with a fixed last <policy context=\"mandatory\"> holding <allow send_destination=\"org.freedesktop.DBus\" "
         "send_interface=\"org.freedesktop.DBus\"/> and <allow receive_sender=\"org.freedesktop.DBus\" "
         "receive_requested_reply=\"false\"/> (last match wins, so barriers / RequestName / AddMatch and every "
         "bus-originated message are always allowed and the generated rules decide everything else, including driver "
         "calls on other interfaces), and the first default <policy> starts with <allow user=\"*\"/>. Excluded "
         "because the man page is silent: see the list in vf/models/policy.py (eavesdroppers are judged only when "
-        "they must not receive under every reading; broadcasts are skipped for senders with name-specific "
-        "destination rules naming a listener's name; no eavesdrop= on send rules; no REPLY_SERIAL on non-replies; "
+        "they must not receive under every reading, also of whether queueing for the addressed name is owning it; "
+        "no eavesdrop= on send rules; no REPLY_SERIAL on non-replies; "
         "one group per user; a denied reply is not retried). distinct = (kind, message type, destination kind, "
         "deciding rule polarity + attribute set, its context, its position class) over decisions with >= 2 "
         "candidate rules")
@@ -301,7 +311,13 @@ def _theme_pair(rng, V, theme):
     'private' <allow Q/> ... <deny Q send_destination[_prefix]=N/>    the owner of N is shielded from Q
     N is a name that the scenario gives to a listener / the eavesdropper / an ordinary owner
     (theme["own"]); Q is a by-value qualifier that the probes hit often (possibly empty)."""
-    name = rng.choice(theme["own"])[0]
+    form = rng.choice(["hub", "private"])
+    ev = theme.get("eaves")
+    pool = theme["own"]
+    if ev is not None and rng.random() < 0.75:
+        # shield the eavesdropper itself / open the door only for somebody else than the eavesdropper
+        pool = [x for x in pool if (x[1] == ev) == (form == "private")] or pool
+    name = rng.choice(pool)[0]
     iface, member, path = rng.choice(V["ifaces"]), rng.choice(V["members"]), rng.choice(V["paths"])
     q = rng.choice([
         [("send_interface", iface)], [("send_interface", iface)],
@@ -317,7 +333,6 @@ def _theme_pair(rng, V, theme):
         d = ("send_destination", name)
     else:
         d = ("send_destination_prefix", rng.choice([x for x in V["prefixes"] if pm.word_prefix(name, x)] or [name]))
-    form = rng.choice(["hub", "private"])
     wide = q or [rng.choice([("send_destination", "*"), ("send_type", "*")])]
     if form == "hub":
         r1 = {"allow": False, "attrs": collections.OrderedDict(wide)}
@@ -325,7 +340,7 @@ def _theme_pair(rng, V, theme):
     else:
         r1 = {"allow": True, "attrs": collections.OrderedDict(wide)} if rng.random() < 0.7 else None
         r2 = {"allow": False, "attrs": collections.OrderedDict(q + [d])}
-    return {"form": form, "q": dict(q), "d": list(d)}, r1, r2
+    return {"form": form, "q": dict(q), "d": list(d), "name": name}, r1, r2
 
 
 def gen_blocks(rng, V, users, extra_users, no_dest, eaves=None, theme=None, themed=None):
@@ -403,7 +418,7 @@ def gen_blocks(rng, V, users, extra_users, no_dest, eaves=None, theme=None, them
                     "attrs": collections.OrderedDict([rng.choice([("user", eu["user"]), ("group", eu["group"])])])}
         b["rules"].append(rule)
         made.append(rule)
-    if theme is not None and theme.get("own") and rng.random() < 0.7:
+    if theme is not None and theme.get("own") and rng.random() < (0.7 if theme.get("eaves") is None else 0.9):
         # appended after the random rules: the second rule of a pair is always evaluated after the
         # first one (same block, or a block later in file order / in a later context than `first`)
         for _ in range(rng.choice([1, 1, 2])):
@@ -414,6 +429,12 @@ def gen_blocks(rng, V, users, extra_users, no_dest, eaves=None, theme=None, them
             b["rules"].append(r2)
             if themed is not None:
                 themed.append(ent)
+        if theme.get("eaves") is not None and rng.random() < 0.6:
+            # the usual "monitoring user" idiom, late enough to decide for some connections
+            a = collections.OrderedDict([("eavesdrop", "true")])
+            if rng.random() < 0.3:
+                a["receive_type"] = rng.choice(["method_call", "signal", "method_return", "error"])
+            rng.choices(blocks, weights)[0]["rules"].append({"allow": True, "attrs": a})
     blocks = [b for b in blocks if b["rules"]]
     blocks.append(copy.deepcopy(FIXED_TAIL))
     n = 0
@@ -435,7 +456,7 @@ def gen_script(rng, sid, users, tier):
     probes are generated while executing, against the observed state, and recorded into it."""
     nusers = rng.choice([2, 2, 3]) if len(users) >= 3 else 2
     us = rng.sample(users, nusers)
-    eaves = rng.random() < 0.3
+    eaves = rng.random() < 0.35
     owner = [u for u in users if u["uid"] == os.getuid()][0]
     if eaves and owner not in us:
         us[-1] = owner              # only the owner of the bus may add eavesdrop='true' match rules
@@ -473,18 +494,20 @@ def gen_script(rng, sid, users, tier):
     if eaves and rng.random() < 0.75:
         clients[-1]["owner"] = True
     theme = None
-    if rng.random() < 0.8:
+    if rng.random() < 0.8 or eaves:
         own = []
-        for name in rng.sample(V["names"], rng.choice([1, 2, 2, 3])):
+        for k, name in enumerate(rng.sample(V["names"], rng.choice([2, 2, 3]) if eaves else rng.choice([1, 2, 2, 3]))):
             r = rng.random()
-            if eaves and r < 0.55:
+            if eaves and (k == 0 or (k > 1 and r < 0.4)):
                 who = ncl - 1
+            elif eaves and k == 1:
+                who = rng.choice(active)
             elif r < 0.85:
                 who = rng.choice(listeners)
             else:
                 who = rng.choice(active)
             own.append([name, who])
-        theme = {"own": own}
+        theme = {"own": own, "eaves": ncl - 1 if eaves else None}
     nst = rng.choice([1, 2, 2, 3])
     stages = []
     for si in range(nst):
@@ -675,6 +698,8 @@ class Scn(object):
             self.sync_name(n)
         self.observe(0)
         self.part.count("configs")
+        if st.get("themed"):
+            self.part.count("configs-with-themed-destination-rule-pairs")
         for b in self.blocks:
             if not b.get("fixed"):
                 self.part.count("rules-generated", len(b["rules"]))
@@ -717,6 +742,9 @@ class Scn(object):
             for _ in range(rng.randint(1, 3)):
                 ops.append({"op": "own", "c": rng.choice(self.active()), "name": rng.choice(self.V["names"]),
                             "flags": rng.choice([0, 4])})
+            for n, c in sorted(themed.items()):
+                if c not in self.registry.get(n, []):        # refused under the previous configuration
+                    ops.append({"op": "own", "c": c, "name": n, "flags": 0})
         return ops
 
     def gen_op(self, rng):
@@ -785,7 +813,7 @@ class Scn(object):
         op["member"] = rng.choice(V["members"])
         op["iface"] = rng.choice(V["ifaces"]) if (op["type"] == "signal" or rng.random() < 0.75) else None
         themed = self.script["stages"][self.si].get("themed")
-        if themed and rng.random() < 0.4:
+        if themed and rng.random() < (0.55 if self.eaves() else 0.4):
             q = rng.choice(themed)["q"]
             op["iface"] = q.get("send_interface", op["iface"])
             op["member"] = q.get("send_member", op["member"])
@@ -796,7 +824,12 @@ class Scn(object):
         if op["type"] == "method_call" and rng.random() < 0.12:
             op["flags"] |= NO_REPLY
         owned = [nm for nm in V["names"] if self.primary(nm) is not None and self.primary(nm) >= 0]
-        if owned and rng.random() < 0.55:
+        hubs = [t["name"] for t in (themed or []) if t["form"] == "hub" and t["name"] in owned and self.primary(t["name"]) != op["c"]]
+        if hubs and rng.random() < 0.25:
+            # to the connection for which a themed <allow ... send_destination=N/> opens the door
+            nm = rng.choice(hubs)
+            op["dest"] = {"kind": "name", "name": nm} if rng.random() < 0.5 else {"kind": "unique", "c": self.primary(nm)}
+        elif owned and rng.random() < 0.55:
             op["dest"] = {"kind": "name", "name": rng.choice(owned)}
         else:
             oth = [i for i in act if i != op["c"]]
@@ -1077,7 +1110,9 @@ class Scn(object):
                 for j in self.live():
                     if j in must:
                         continue
-                    if j in eav and ok and j != c:
+                    # (an eavesdropper that sends also matches its own message: by the man page's
+                    # definition it eavesdrops on it like on anybody else's)
+                    if j in eav and ok:
                         v = pm.eavesdrop_verdict(eff[c], eff[j], msg, snames, self.names_of(j), queued_for_addressed(j))
                         detail[("eaves", j)] = v
                         if v.must_not:
@@ -1160,7 +1195,7 @@ class Scn(object):
                 self.note_decision("receive", r, shape)
                 self.note_registry_shape(r, snames, None)
             for j in eav:
-                if j != c and delivered and ("eaves", j) in detail:
+                if delivered and ("eaves", j) in detail:
                     self.part.count("eavesdropper:" + ("must-not-receive(confirmed)" if j in mustnot else
                                                        "unjudged(silent point 4/8):%s" % ("got" if got.get(j) else "not-got")))
                     self.note_eavesdropped_copy(detail[("eaves", j)], s, self.names_of(j))
@@ -1210,6 +1245,11 @@ class Scn(object):
                         self.exec_op(op)
                 self.token = b"c06-none"
                 self.tokens_in(self.observe(0), {"op": "end-of-stage"})
+                wk = lambda i: any(not n.startswith(":") for n in self.names_of(i))
+                if any(wk(i) for i in self.eaves()):
+                    self.part.count("configs-with-name-owning-eavesdropper")
+                if any(wk(i) for i in self.listeners() if self.meta(i)["listen"] == "signal"):
+                    self.part.count("configs-with-name-owning-broadcast-listener")
         except client.Timeout:
             self.hung = True
             self.aborted = "watchdog"
@@ -1280,7 +1320,8 @@ def run(tier, seed, replay=None, scale=1.0):
     b = build.build("asan")
     r.builds.append(b.info())
     r.assumptions = ["oracle vf/models/policy.py transcribes doc/dbus-daemon.1.xml.in; its module docstring lists the "
-                     "ten points on which the man page is silent and how each is resolved or excluded",
+                     "ten points on which the man page is silent and how each is resolved or excluded (point 6: send rules "
+                     "are evaluated per prospective recipient with that recipient's names)",
                      "ordering barrier of DESIGN 1.4 (no wall-clock waits); model state re-synchronised from "
                      "ListQueuedOwners and observed deliveries after every step",
                      "needs root to open connections as other users"]
@@ -1322,5 +1363,15 @@ def run(tier, seed, replay=None, scale=1.0):
                  ("probe:signal:broadcast", 300), ("probe:method_call:driver", 100), ("connect:allowed", 5),
                  ("connect:denied", 5), ("daemons-scraped", 20)):
         r.require(k, m if full else 1)
+    for k, m in (# per-recipient evaluation of the send rules (silent point 6): broadcasts / eavesdropped copies
+                 # whose fate hangs on a send_destination(_prefix) rule and on who the recipient is
+                 ("configs-with-name-owning-broadcast-listener", 30), ("configs-with-name-owning-eavesdropper", 5),
+                 ("broadcast:send-rules-split-the-recipients", 30),
+                 ("broadcast-recipient:destination-rules-change-the-delivery:delivered-only-thanks-to-them", 50),
+                 ("broadcast-recipient:destination-rules-change-the-delivery:withheld-only-because-of-them", 50),
+                 ("eavesdropped-copy:withheld-by-send-rules-only", 8),
+                 ("eavesdropped-copy:withheld-by-destination-rule-naming-the-eavesdropper", 2),
+                 ("eavesdropped-copy:withheld-because-the-allow-names-only-the-addressee", 2)):
+        r.require(k, m if full else 0)
     _extra(r)
     return r.finish()
